@@ -496,7 +496,7 @@ def check(run):
                 "the outputs of all blocks right after wait_init() and after every burst are fed to "
                 "the acceptor; thorough adds all chains of <= 3 boolean CBlocks x all input vectors "
                 "x all single changes. Non-trivial = >= 3 evaluations; distinct by JSON.")
-    n = 350 if run.tier == 'quick' else 3000
+    n = 350 if run.tier == 'quick' else 9000
     cases = [gen_acyclic(run.rng) for _ in range(n)]
     small = list(gen_small_exhaustive(2 if run.tier == 'quick' else 3))
     if run.tier == 'quick':
